@@ -251,6 +251,7 @@ def nat_sweep(seed, count):
             if min(np.diff(np.linalg.eigvalsh(dd)).min(), np.diff(np.linalg.eigvalsh(vv)).min()) < 5.0:
                 continue
             base = pydrex.elasticity_components(np.array([C0]))
+            base_copy = {k_: np.array(v_, copy=True) for k_, v_ in base.items()}
             keys = ["percent_anisotropy", "percent_hexagonal", "percent_tetragonal", "percent_orthorhombic", "percent_monoclinic", "percent_triclinic"]
             p0 = np.array([base[k][0] for k in keys])
             if not np.all(np.isfinite(p0)):
@@ -283,6 +284,16 @@ def nat_sweep(seed, count):
                     break
                 if abs(o["bulk_modulus"][0] - base["bulk_modulus"][0]) > 1e-8 * base["bulk_modulus"][0] or abs(o["shear_modulus"][0] - base["shear_modulus"][0]) > 1e-8 * base["shear_modulus"][0]:
                     msgs.append("moduli change under rotation")
+                    break
+            # the result of the first call is the caller's: later calls do not change it
+            if any(not np.array_equal(base[k_], base_copy[k_], equal_nan=True) for k_ in base_copy):
+                msgs.append("the result returned by an earlier call was modified by later calls (shared output arrays)")
+            # units: the percentages and the axis do not depend on the unit of the stiffness (GPa, Pa, 1e-12 GPa); moduli scale with it
+            for unit in (1e9, 1e-12):
+                o = pydrex.elasticity_components(np.array([Cq * unit]))
+                pq_ = np.array([o[k][0] for k in keys])
+                if not np.allclose(pq_, pq, atol=1e-5) or abs(o["bulk_modulus"][0] - unit * base["bulk_modulus"][0]) > 1e-8 * unit * base["bulk_modulus"][0] or abs(abs(o["hexagonal_axis"][0] @ ax) - 1) > 1e-5:
+                    msgs.append(f"percentages / axis / moduli do not scale with the unit of the stiffness (factor {unit:g}): {np.abs(pq_ - pq).max():.2e}")
                     break
             h = nat_head(C0.tolist())
             if not h["ok"]:
